@@ -148,7 +148,7 @@ CHECKS = [
      "note": "the argmin proof unrolls the candidate list (length fixed per case); selection_criteria's formulas and the ellipsoid filter itself are not under contract",
      "not_covered": ["the published formula of each selection criterion", "that the ellipsoid filter honours custom weekday maps (it hard-codes Mon-Fri)"],
      },
-    {"id": "C09", "level": "proof", "modules": ["contracts.C09_daymean"], "bounded": ["bounded.C09_daymean"],
+    {"id": "C09", "level": "proof", "modules": ["contracts.C09_daymean", "contracts.C08_asfreq"], "bounded": ["flow.C09_tables", "bounded.C09_daymean"],
      "technique": "deductive verification of the half rule on a row-wise model (pyvc, z3) + bounded per-meter-day reference through the real data classes",
      "text": "Proof: for one arbitrary day of the aggregated frame, _compute_temperature_features (daily and billing classes, real source) blanks the day's "
              "temperature exactly when half or fewer of its readings are present (hourly feeds: not_null / (not_null + null) <= 1/2; sub-hourly feeds: "
@@ -185,7 +185,7 @@ CHECKS = [
      "note": "history independence is a whole-history property; the deductive part decides the seed contract and the ownership invariant, the frame "
              "conditions are conditions of the argument and the bounded part decides the rest; nlopt / sklearn / numba determinism is assumed",
      "not_covered": ["CalTRACK hourly fits in the bounded part", "more than 4 concurrent workers", "bit-identity across machines / BLAS builds (not claimed by the property)"]},
-    {"id": "C08", "level": "proof", "modules": ["contracts.C08_conserve"], "bounded": ["bounded.C08_conserve"],
+    {"id": "C08", "level": "proof", "modules": ["contracts.C08_conserve", "contracts.C08_asfreq"], "bounded": ["flow.C08_tables", "bounded.C08_conserve"],
      "technique": "deductive verification of the cleaning steps on a row-wise model (pyvc, z3) + bounded exact-arithmetic conservation through the real data classes",
      "text": "Proof: for one arbitrary row of an arbitrary frame, downsample_and_clean_daily_data keeps every day, blanks a day covered for half or "
              "less and divides a day covered for more than half by its coverage (a fully covered day is the plain sum); clean_billing_data keeps "
